@@ -15,6 +15,11 @@ total length = the parser's size equation) and `c15_k_lossless` (accepted ⇒ th
 nothing truncated, nothing wrapped).  Then: `c15_spec_sound` (the executable Spec the driver evaluates on the
 implementation's payloads holds of every accepted request), `c15_no_panic`, `c15_pure` / `c15_same_digest`,
 `c15_accept_or_reject`, `c15_injected_good`.
+
+Failing-input search for contract-side changes: `specOkF` is the Spec with the parser facts as DATA (`Whv.Gov.Facts`, parsers
+`Whv.Gov.RalF`); the driver evaluates it with the facts extracted from the CURRENT sources on the payloads the real node
+emitted.  `c15_conversions_fit`, `c15_gen_is_node_layout`, `c15_specF_gen` (`specOkF Facts.gen = specOk`), `c15_search_sound`
+(cannot fire on the unchanged tree), `c15_search_fires` (fires against the facts of the seeded contract changes).
 -/
 namespace Whv.C15
 open Whv Whv.Gov
@@ -439,6 +444,58 @@ theorem c15_spec_rejects_wrapped :
     specOk 0 (.minConsistency 300) (tokenBridgeModule ++ (be 1 0xf1 ++ be 1 300)) = false ∧
     specOk 0 (.destroy 65538 [5]) (tokenBridgeModule ++ (be 1 0xf0 ++ (be 2 65538 ++ (be 2 1 ++ be 8 5)))) = false := by
   decide
+
+/-! ## the failing-input search: the Spec with the parser facts as data
+
+The driver is handed the facts `checks/c15.py` extracted from the CURRENT contract sources and evaluates `specOkF F` on every
+payload the real node emitted; when the node emitted exactly the payload `convert` (proved correct above) emits and
+`specOkF F` is false, it reports the request as `contract-rejects-node-payload` / `contract-reads-other-value`. -/
+
+/-- Every `u256From<N>Byte!` conversion of the parsers is applied to a slice of exactly `N` bytes (otherwise the VM aborts). -/
+theorem c15_conversions_fit :
+    Gen.C15.moduleConv = Gen.C15.moduleSlice.2 - Gen.C15.moduleSlice.1 ∧ Gen.C15.moduleConv = 32 ∧
+    Gen.C15.gsIndexConv = Gen.C15.gsIndex.2 - Gen.C15.gsIndex.1 ∧ Gen.C15.gsCountConv = Gen.C15.gsCount.2 - Gen.C15.gsCount.1 ∧
+    Gen.C15.feeConv = Gen.C15.feeValue.2 - Gen.C15.feeValue.1 ∧ Gen.C15.tfAmountConv = Gen.C15.tfAmount.2 - Gen.C15.tfAmount.1 ∧
+    Gen.C15.cuCodeLenConv = Gen.C15.cuCodeLen.2 - Gen.C15.cuCodeLen.1 ∧ Gen.C15.rcChainConv = Gen.C15.rcChain.2 - Gen.C15.rcChain.1 ∧
+    Gen.C15.dsCountConv = Gen.C15.dsCount.2 - Gen.C15.dsCount.1 ∧ Gen.C15.clConv = Gen.C15.clValue.2 - Gen.C15.clValue.1 ∧
+    Gen.C15.raLenConv = Gen.C15.raLen.2 - Gen.C15.raLen.1 := by
+  decide
+
+/-- The parser facts extracted from the contract sources are exactly the layout the node's serializers implement. -/
+theorem c15_gen_is_node_layout : Facts.gen = Facts.node := by decide
+
+/-- With the compiled-in facts, the Spec-with-facts-as-data IS the Spec the theorems above are about. -/
+theorem c15_specF_gen (gsi : Nat) (pl : Payload) (p : Bytes) : specOkF Facts.gen gsi pl p = specOk gsi pl p := by
+  cases pl <;>
+    simp only [specOkF, specOk, parseMessageFee_gen, parseTransferFee_gen, parseGuardianSet_gen, parseUpgrade_gen,
+      parseRegisterChain_gen, parseDestroy_gen, parseMinConsistency_gen, parseRefundAddress_gen] <;> rfl
+
+/-- The search cannot fire on the unchanged tree: with the facts the library was built against, every payload the
+(repaired) conversion emits passes the Spec-with-facts-as-data. -/
+theorem c15_search_sound (gsi : Nat) (pl : Payload) (p : Bytes) (hg : gsi < 2 ^ 32) (hw : pl.WF)
+    (h : convert gsi pl = .ok p) : specOkF Facts.gen gsi pl p = true := by
+  rw [c15_specF_gen]; exact c15_spec_sound gsi pl p hg hw h
+
+example : ∃ p, convert 7 (.destroy 65535 [0, 1, 2 ^ 64 - 1]) = .ok p ∧ (Payload.destroy 65535 [0, 1, 2 ^ 64 - 1]).WF ∧
+    specOkF Facts.gen 7 (.destroy 65535 [0, 1, 2 ^ 64 - 1]) p = true :=
+  ⟨_, rfl, by simp [Payload.WF], by decide⟩
+
+/-- The contract of the seeded change C15-r3m3: `submitTransferFees` reads a 33-byte recipient at [65,98), asserts 98 bytes. -/
+def factsRecipient33 : Facts := { Facts.gen with tfRecipient := (65, 98), tfSize := 98 }
+/-- The contract of the seeded change C15-m3: the sequence count is `u256From1Byte!(payload[36,37))`. -/
+def factsCountLowByte : Facts := { Facts.gen with dsCount := (36, 37), dsCountConv := 1 }
+
+set_option maxRecDepth 100000 in
+/-- The search is not vacuous: against deviating facts it fires on the payload the model itself emits — the parser rejects
+every TransferFee payload when it wants 98 bytes; reading only the low byte of the count it still accepts 255 sequences
+but rejects 256. -/
+theorem c15_search_fires :
+    (∃ p, transferFeePayload sampleFee (List.replicate 64 70) = .ok p ∧
+      specOkF factsRecipient33 0 (.transferFee sampleFee (List.replicate 64 70)) p = false ∧
+      acceptsF factsRecipient33 (.transferFee sampleFee (List.replicate 64 70)) p = false) ∧
+    (∃ p, destroyPayload 2 (List.replicate 255 7) = .ok p ∧ specOkF factsCountLowByte 0 (.destroy 2 (List.replicate 255 7)) p = true) ∧
+    (∃ p, destroyPayload 2 (List.replicate 256 7) = .ok p ∧ specOkF factsCountLowByte 0 (.destroy 2 (List.replicate 256 7)) p = false) := by
+  refine ⟨⟨_, rfl, by decide, by decide⟩, ⟨_, rfl, by decide⟩, ⟨_, rfl, by decide⟩⟩
 
 /-! ## the handler: no panic, purity, accept-or-reject, envelope -/
 
